@@ -38,6 +38,14 @@ let () =
       let _, outs = List.fold_left (fun (m, acc) tok ->
           let (m', o) = fm_step m (parse_f tok) in (m', (pr_out o ^ "|" ^ dump_fm m') :: acc)) ([], []) ops in
       print_endline (String.concat " ; " (List.rev outs))
+    | "C" :: tbl :: ops ->
+      (* C <a=k,a=k,...> ops: keys in the ops are ARGUMENT codes, the model converts them (Model.fm_step_conv) *)
+      let t = List.map (fun e -> match String.split_on_char '=' e with
+          | [a; k] -> (n_of_int (ios a), n_of_int (ios k)) | _ -> failwith ("bad table " ^ e))
+          (List.filter (fun s -> s <> "") (String.split_on_char ',' tbl)) in
+      let _, outs = List.fold_left (fun (m, acc) tok ->
+          let (m', o) = fm_step_conv t m (parse_f tok) in (m', (pr_out o ^ "|" ^ dump_fm m') :: acc)) ([], []) ops in
+      print_endline (String.concat " ; " (List.rev outs))
     | "P" :: ops ->
       let _, outs = List.fold_left (fun (s, acc) tok ->
           let (s', o) = po_step s (parse_p tok) in (s', (pr_out o ^ "|" ^ dump_po s') :: acc)) ([], []) ops in
